@@ -22,6 +22,7 @@ CONSTANTS Procs,          \* contenders (live processes running the recovery loo
           DeadlineFails,  \* TRUE: the deadline may expire at any retry; FALSE: retries only (behaviour generation)
           AsImplemented,
           MayRelease,     \* BOOLEAN: a serving contender may shut down (Drop)
+          DropBeforeDrain, \* BOOLEAN: deviation - the files are dropped at the shutdown signal, requests in flight are served afterwards
           OrphanMetaKept,     \* TRUE (pinned commit): stale cleanup does nothing when lock.json is missing, even if the dead
                               \* owner's meta.json is still there; FALSE: it removes that meta file and reports success
           CorruptIgnoresMeta  \* TRUE (pinned commit): corrupt cleanup gives up whenever meta.json exists;
@@ -98,7 +99,8 @@ WriteMeta(p) ==
   /\ UNCHANGED <<start, lock, exp, holds, retries, result>>
 \* Drop: remove meta.json, remove lock.json - whatever they contain
 DropEnter(p) == /\ pc[p] = "serving" /\ MayRelease
-                /\ holds' = holds \ {p} /\ serving' = serving \ {p}
+                \* the owner's drain of requests in flight belongs to pc = "serving": Drop is what it does last
+                /\ holds' = holds \ {p} /\ serving' = (IF DropBeforeDrain THEN serving ELSE serving \ {p})
                 /\ Goto(p, "d_meta")                          \* hook auth.drop.enter
                 /\ UNCHANGED <<start, lock, meta, exp, retries, result, stolen>>
 DropMeta(p) == /\ pc[p] = "d_meta"
@@ -107,8 +109,10 @@ DropMeta(p) == /\ pc[p] = "d_meta"
                /\ UNCHANGED <<start, lock, exp, holds, serving, retries, result>>
 DropLock(p) == /\ pc[p] = "d_lock"
                /\ lock' = AbsentF /\ stolen' = Steal(p, "lock", lock, "DropLock")
-               /\ Goto(p, "gone")                             \* hook auth.drop.lock
+               /\ Goto(p, IF DropBeforeDrain THEN "draining" ELSE "gone")   \* hook auth.drop.lock
                /\ UNCHANGED <<start, meta, exp, holds, serving, retries, result>>
+Drained(p) == /\ pc[p] = "draining" /\ serving' = serving \ {p} /\ Goto(p, "gone")
+              /\ UNCHANGED <<start, lock, meta, exp, holds, retries, result, stolen>>
 
 \* ---- recovery loop: read meta.json and ping its endpoint
 ReadMeta(p) ==
@@ -181,7 +185,7 @@ CorruptRename(p) ==
          ELSE Retry(p) /\ UNCHANGED <<lock, meta, stolen>>
   /\ UNCHANGED <<start, exp, holds, serving>>
 
-Step(p) == \/ TryCreate(p) \/ WriteRecord(p) \/ WriteMeta(p) \/ DropEnter(p) \/ DropMeta(p) \/ DropLock(p)
+Step(p) == \/ TryCreate(p) \/ WriteRecord(p) \/ WriteMeta(p) \/ DropEnter(p) \/ DropMeta(p) \/ DropLock(p) \/ Drained(p)
            \/ ReadMeta(p) \/ ReadLock(p) \/ StaleCheck(p) \/ StaleRename(p) \/ StaleMetaRead(p)
            \/ StaleMetaRename(p) \/ StaleDone(p) \/ CorruptCheck(p) \/ CorruptRename(p)
 Next == \E p \in Procs : Step(p)
@@ -192,6 +196,9 @@ AtMostOne == Cardinality(holds) + (IF Resident # "none" /\ start \in {"live_serv
 NeverStealLive == stolen = {}
 \* the lock file of a holder is its own
 HolderOwnsLock == \A p \in holds : lock = Full(p)
+\* whoever still answers requests for the store acts as its authority: it owns the lock, and nobody else holds the role
+ServingOwnsLock == \A p \in serving \ {Resident} : lock = Full(p)
+AtMostOneActing == Cardinality(holds \cup (serving \ {Resident})) + (IF Resident # "none" /\ start \in {"live_serving", "live_starting"} THEN 1 ELSE 0) <= 1
 Safe == AtMostOne /\ NeverStealLive
 \* a store whose previous authority crashed becomes usable again: some contender gets the role
 DeadStart == start \in {"none", "dead_lock", "dead_lock_meta", "dead_partial", "dead_meta", "dead_partial_meta"}
